@@ -122,6 +122,17 @@ DevFinal == /\ Is("d2h") /\ E.kind = "resp" /\ dev = "final" /\ E.final
 Since == CHOOSE i \in 1..l : T[i].ev = "call" /\ \A j \in (i + 1)..l : T[j].ev # "call"
 DevAborted == \E i \in Since..l : T[i].ev = "d2h" /\ T[i].kind = "abort"
 LinkIntact == \A i \in Since..l : T[i].ev = "d2h" => T[i].fault \in {"none", "err"}
+\* ---------------------------------------------------------------- the device-to-host stream is consumed by the call it belongs to
+\* Every exchange ends with a response of the device (cmd / value: the only one; in / out: the FINAL one, also when the data phase has length zero -
+\* response announcing 0 bytes, no data packet, final response).  A call that returns while frames of its exchange are still in the link hands them to the
+\* NEXT call as that call's answer.  On a link that did nothing to the frames (device error statuses and not-ready bytes included) the call therefore
+\* returns with nothing left in the link (E.left: bytes / reports the device emitted and the host has not read), and on the serial link it has
+\* acknowledged every frame of the device (recomputed here from the events of the call: one ACK of the host per response / data / abort frame).
+Benign(s) == \A i \in s..l : T[i].ev = "d2h" => T[i].fault \in {"none", "err", "notready"}
+DevFrames(s) == Cardinality({i \in s..l : T[i].ev = "d2h" /\ T[i].kind \in {"resp", "data", "abort"}})
+HostAcks(s) == Cardinality({i \in s..l : T[i].ev = "h2d" /\ T[i].kind = "ack"})
+Drained(s) == (Benign(s) /\ dev # "dead") => /\ E.left = 0
+                                              /\ (Serial => HostAcks(s) = DevFrames(s))
 \* ---------------------------------------------------------------- the API contract
 Succ == E.kind = "ret" /\ E.val \in {"ok", "data", "values"} /\ E.status = 0
 MaxReads == 3000
@@ -144,6 +155,7 @@ Result ==
   /\ (DevAborted /\ LinkIntact => /\ dev = "idle" /\ E.kind = "ret" /\ ~Succ               \* AbortReported: the exchange is completed (every frame acknowledged,
                                   /\ \E i \in Since..l : T[i].ev = "d2h" /\ T[i].kind = "resp" /\ T[i].final /\ E.status = T[i].devStatus)   \* the final response read) and the device's reason is the status of the call
   /\ (strict => ~Succ)                                                              \* StrictFaults: NAK / abort / truncated / missing frame end the call in failure
+  /\ Drained(Since)                                                                 \* Drained: nothing of this call's exchange is left for the next call
   /\ LET exp == IF call.via = "cli" THEN CliCmds(call.cli) ELSE Cmds(call.op, call.args, call.dl, call.db) IN   \* a blhost command line means its operation (MbootCli)                        \* AsRequested: the device saw exactly the commands the operation stands for,
      IF faulted \/ dev = "dead" THEN IsPrefix(cmds, exp) ELSE cmds = exp             \*   with the parameters given (under a fault: no other command than those)
   /\ call' = [op |-> "none"] /\ UNCHANGED <<dev, cur, faulted, sentB, sentP, gotC, viol, done, cmds, strict>> /\ Adv
